@@ -69,12 +69,12 @@ func repr(sb *strings.Builder, o ugo.Object, depth int) {
 		}
 		reprMap(sb, "sync", v.Value, depth)
 	case *ugo.Error:
-		fmt.Fprintf(sb, "error(%s: %s)", v.Name, v.Message)
+		fmt.Fprintf(sb, "error(%s: %s)", nameOr(v.Name), v.Message)
 	case *ugo.RuntimeError:
 		if v.Err == nil {
 			sb.WriteString("rterror(nil)")
 		} else {
-			fmt.Fprintf(sb, "error(%s: %s)", v.Err.Name, v.Err.Message)
+			fmt.Fprintf(sb, "error(%s: %s)", nameOr(v.Err.Name), v.Err.Message)
 		}
 	case *ugo.CompiledFunction:
 		sb.WriteString("<compiledFunction>")
